@@ -247,8 +247,13 @@ pub fn run(ctx: &Ctx) -> Finish {
                 };
                 if with_removed {
                     inst.removed.push(removed.clone());
+                    // hints: one-hot only, or (every second instance) an SOS1 hint only
                     if !con_list.is_empty() {
-                        inst.one_hot.push((con_list[0].id, vec![1, 2]));
+                        if (i + ci) % 2 == 0 {
+                            inst.one_hot.push((con_list[0].id, vec![1, 2]));
+                        } else {
+                            inst.sos1.push((con_list[0].id, vec![con_list[0].id], vec![2, 1]));
+                        }
                     }
                     inst.description_name = Some("parametric".into());
                 }
@@ -264,6 +269,10 @@ pub fn run(ctx: &Ctx) -> Finish {
                     assignments.push(zeros);
                     for miss in declared {
                         assignments.push(complete.iter().filter(|(k, _)| k != miss).cloned().collect());
+                        // one declared parameter missing AND an unrelated extra id supplied
+                        let mut v: Vec<(u64, f64)> = complete.iter().filter(|(k, _)| k != miss).cloned().collect();
+                        v.push((99, 7.0));
+                        assignments.push(v);
                     }
                     assignments.push(vec![]);
                     assignments.push(vec![(99, 1.0)]);
@@ -304,7 +313,7 @@ pub fn run(ctx: &Ctx) -> Finish {
     });
     Finish {
         level: "model_checking",
-        rule: "parametric instances whose objective and constraints range over the representation alphabet with decision ids {1,2} and parameter ids {10,11} (declared sets {10,11} and {10,11,12}: a declared parameter may be unused or occur only in a removed constraint) x parameter assignments {complete, complete + unrelated extra, with a zero, each single declared parameter missing, empty, only an unrelated id} through the real with_parameters; oracle: exact partial evaluation of objective and active constraints, everything else unchanged, parameters recorded, Err iff a declared parameter is missing; evaluation at x compared with the parametric functions at (x,p); Instance->ParametricInstance->with_parameters({}) round trip".into(),
+        rule: "parametric instances whose objective and constraints range over the representation alphabet with decision ids {1,2} and parameter ids {10,11} (declared sets {10,11} and {10,11,12}: a declared parameter may be unused or occur only in a removed constraint) x parameter assignments {complete, complete + unrelated extra, with a zero, each single declared parameter missing (alone and together with an unrelated extra id), empty, only an unrelated id} through the real with_parameters; oracle: exact partial evaluation of objective and active constraints, everything else unchanged, parameters recorded, Err iff a declared parameter is missing; evaluation at x compared with the parametric functions at (x,p); Instance->ParametricInstance->with_parameters({}) round trip".into(),
         bounds: json!({"decision_ids": [1,2], "parameter_ids": [10,11,12], "function_terms_max": 3, "degree_max": 3}),
         exhaustive: t,
     }
